@@ -5,6 +5,7 @@ import (
 	"flag"
 	"fmt"
 	"os"
+	"runtime/pprof"
 	"strconv"
 	"strings"
 )
@@ -64,7 +65,13 @@ func cmdRun(argv []string) {
 	solverKind := fs.String("solver", "z3-new", "z3|z3-new|cvc5")
 	timeout := fs.Int("timeout", 10000, "solver timeout ms")
 	smtlog := fs.String("smtlog", "", "write solver input to file")
+	prof := fs.String("cpuprofile", "", "write cpu profile")
 	fs.Parse(argv)
+	if *prof != "" {
+		f, _ := os.Create(*prof)
+		pprof.StartCPUProfile(f)
+		defer pprof.StopCPUProfile()
+	}
 	p, err := loadProgram(verifRoot(), []string{*dir})
 	if err != nil {
 		fmt.Fprintln(os.Stderr, "load:", err)
